@@ -22,7 +22,7 @@ namespace Hive.SyncMutex
 
 inductive Op
   | lock | unlock | rlock | runlock
-  deriving DecidableEq, Repr
+  deriving DecidableEq, Repr, Hashable
 
 /-- Program points.  `A` = about to acquire the internal mutex, `C` = inside the critical section of the
 internal mutex at the test, `P` = parked in `Cond.Wait`, `R` = notified, about to re-acquire the internal
@@ -34,7 +34,7 @@ inductive Pc
   | ruA | ruC | ruS
   | ulA | ulC | ulB | ulS
   | dead
-  deriving DecidableEq, Repr
+  deriving DecidableEq, Repr, Hashable
 
 structure Mx where
   m : Bool
@@ -45,7 +45,7 @@ structure Mx where
   wakeR : Nat
   waitW : Nat
   wakeW : Nat
-  deriving DecidableEq, Repr
+  deriving DecidableEq, Repr, Hashable
 
 def Mx.init : Mx := ⟨false, 0, false, 0, 0, 0, 0, 0⟩
 
@@ -54,7 +54,7 @@ structure V where
   pc : Pc
   rd : Nat
   wr : Bool
-  deriving DecidableEq, Repr
+  deriving DecidableEq, Repr, Hashable
 
 def V.init : V := ⟨.idle, 0, false⟩
 
@@ -118,7 +118,7 @@ def start : Op → Pc
 structure Th where
   v : V
   script : List Op
-  deriving DecidableEq, Repr
+  deriving DecidableEq, Repr, Hashable
 
 def Th.new (script : List Op) : Th := ⟨V.init, script⟩
 
